@@ -16,6 +16,8 @@
 //   ret <v>                      value returned by runAllTestsMain
 //   propagated <std|other>       rethrow mode: the exception left runAllTestsMain
 //   final <depth> <cur>
+//   (`rethrow <0|1>` between two `run`s: the next CommandLineTestRunner of the same process gets / does not get -e; a case is
+//    a SEQUENCE of runner invocations in one process, the program may be extended between them)
 //   u <hex>                      `composite` runs (-ojunit -v with the JUnit writer replaced by a second recording console
 //                                output): every string output ONE of the CompositeTestOutput received, in order, after `final`
 //
@@ -557,6 +559,12 @@ void run_case(const vh::Case& c) {
         }
         else if (op == "realio" && w.size() == 1 && p.haveCfg && !p.realio && !p.composite && !p.rethrow) {
             p.realio = true;
+            emit_words(w);
+        }
+        else if (op == "rethrow" && w.size() == 2 && (w[1] == "0" || w[1] == "1") && p.haveCfg && !p.composite && !p.realio && !p.separate) {
+            // the NEXT runner of this process is started without (1) / with (0) -e; everything the earlier runners left in the
+            // process (the static UtestShell::rethrowExceptions_, jmp_buf_index, current test / result) carries over
+            p.rethrow = w[1] == "1";
             emit_words(w);
         }
         else if (op == "run" && w.size() == 1 && p.haveCfg && !g_process_dirty) {
